@@ -135,6 +135,24 @@ def idle_sweep_cases(tier, seed):
                     yield dict(base, calls=calls)
 
 
+def reconfigured_sweep_cases(tier, seed):
+    """the application assigns other timeouts to the (pooled) object at run time while a connection sits in the pool; the next call
+    is interrupted at every socket event it performs"""
+    lib = [r for r in faultlab.op_library() if r["op"] in ("get", "set", "get_many", "incr", "delete", "version", "set_many", "gats")][::2]
+    for kind, extra in (("pooled", {"max_pool_size": 1}), ("pooled", {"max_pool_size": 2}), ("hash-pooled", {"max_pool_size": 1}), ("client", {}), ("hash", {})):
+        for new in ({"timeout": 5}, {"timeout": None, "connect_timeout": 7}, {"timeout": 1.0}):
+            for r in lib:
+                cfg = dict(extra, timeout=1, connect_timeout=1, ignore_exc=False)
+                base = {"kind": kind, "cfg": cfg, "follow": True,
+                        "calls": [{"op": {"op": "get", "key": "warmup"}}, {"op": {"op": "reconfigure", "set": new}}, {"op": r}] + c01.FOLLOW}
+                dry = interpret(base)
+                for ev_kind, nth in dry.events_by_call[2]:
+                    for f in faultlab.faults_for_event(ev_kind, nth, True):
+                        calls = [dict(c) for c in base["calls"]]
+                        calls[2] = dict(calls[2], faults=[f])
+                        yield dict(base, calls=calls)
+
+
 ERROR_OPS = [{"op": "get", "key": "bad key"}, {"op": "set", "key": "k", "value": b"v", "expire": "x"}, {"op": "incr", "key": "t", "delta": "x"},
              {"op": "cas", "key": "t", "value": b"v", "cas": "not-a-number"}, {"op": "get_many", "keys": ["t", "bad key"]},
              {"op": "set", "key": "k" * 251, "value": b"v"}, {"op": "touch", "key": "t", "expire": None}, {"op": "delete_many", "keys": ["a", "b\n"]}]
@@ -190,6 +208,7 @@ PARTS = [
     Part("after-close-interruptions", "enum", check, cases=after_close_sweep_cases, exhaustive=True),
     Part("idle-expiry-interruptions", "enum", check, cases=idle_sweep_cases, exhaustive=True),
     Part("input-error-then-interruption", "enum", check, cases=error_then_interrupt_cases, exhaustive=True),
+    Part("reconfigured-at-run-time", "enum", check, cases=reconfigured_sweep_cases, exhaustive=True),
     Part("re-entrant-interruptions", "enum", check_reentrant, cases=reentrant_cases, exhaustive=True),
     Part("random-histories", "hyp", check, strategy=history_strategy,
          examples={"quick": 300, "thorough": 12000}, shards={"quick": 4, "thorough": 16}),
